@@ -229,7 +229,13 @@ func (c *Ctx) load(s *State, sh *PtrShape) []Term {
 	for k := range out {
 		out[k] = c.define("ld", out[k])
 	}
-	s.assume(c, typeInv(sh.Typ, out))
+	if sh.Kind != pLocal {
+		if c.specDepth > 0 {
+			c.addFact(typeInv(sh.Typ, out))
+		} else {
+			s.assume(c, typeInv(sh.Typ, out))
+		}
+	}
 	return out
 }
 
